@@ -9,10 +9,14 @@
    is accepted (C07_fen_of_every_position_of_D_is_accepted, C07_fen_of_every_reached_position_is_accepted), and it denotes the
    position it was printed from -- the very same record, or the record with the files of lost rights reset
    (C07_printed_fen_is_accepted, C07_printed_fen_of_a_reached_position_is_accepted).
-   LEFT TO THE RUN: well-formed strings in spellings the printer does not use (KQkq against file letters in Chess960, omitted
-   counters): every pool FEN is offered in both notations and the fields are compared with an independent reading. *)
+   The other spelling of the castling field is covered too (proofs/FenShredder.v): with every held right written as the FILE LETTER
+   of its rook (Shredder-FEN, "HAha" for the start position), or any mix of file letters and the printer's letters, right by right,
+   the string parses -- in either arithmetic mode, whatever the Chess960 flag -- to the very same position
+   (C07_file_letter_spelling_denotes_the_same_position, C07_any_mix_of_spellings_denotes_the_same_position).
+   LEFT TO THE RUN: other orders of the castling letters, omitted counters, surrounding white space: every pool FEN is offered in
+   both notations and the fields are compared with an independent reading. *)
 From Coq Require Import NArith ZArith List Bool.
-From Rawr Require Import Consts Bits Magic Position MoveGen MakeMove Fen FenFacts ParityFacts FenRound FenCastle Abs ClosureNull DomainClosed FenDomain.
+From Rawr Require Import Consts Bits Magic Position MoveGen MakeMove Fen FenFacts ParityFacts FenRound FenCastle Abs ClosureNull DomainClosed FenDomain FenShredder.
 Local Open Scope N_scope.
 
 Theorem C07_parse_validated : forall mode frc s q,
@@ -74,6 +78,19 @@ Theorem C07_fen_of_every_reached_position_is_accepted : forall mode os p, in_D p
   exists s, get_fen q = Some s /\ set_fen mode (is_frc q) s = Some (norm_files q).
 Proof. exact fen_of_reached_position_is_accepted. Qed.
 
+Theorem C07_file_letter_spelling_denotes_the_same_position : forall mode p, RTC p ->
+  exists s, get_fen_shredder p = Some s /\ set_fen mode (is_frc p) s = Some p.
+Proof. exact fen_shredder_roundtrip. Qed.
+Theorem C07_any_mix_of_spellings_denotes_the_same_position : forall mode s0 s1 s2 s3 p, RTC p ->
+  exists s, get_fen_mix s0 s1 s2 s3 p = Some s /\ set_fen mode (is_frc p) s = Some p.
+Proof. exact fen_mix_roundtrip. Qed.
+Theorem C07_file_letter_spelling_of_a_reached_position : forall mode p, RTW p ->
+  exists s, get_fen_shredder p = Some s /\ set_fen mode (is_frc p) s = Some (norm_files p).
+Proof. exact fen_shredder_roundtrip_modulo_dead_files. Qed.
+(* the printer's own spelling is the mix that forces no file letter: the shape is shared *)
+Theorem C07_printer_spelling_is_a_mix : forall p, get_fen p = get_fen_mix false false false false p.
+Proof. intros p. rewrite get_fen_is_with. reflexivity. Qed.
+
 Print Assumptions C07_parse_validated.
 Print Assumptions C07_validate_sound.
 Print Assumptions C07_parse_consistent.
@@ -81,3 +98,7 @@ Print Assumptions C07_printed_fen_is_accepted.
 Print Assumptions C07_printed_fen_of_a_reached_position_is_accepted.
 Print Assumptions C07_fen_of_every_position_of_D_is_accepted.
 Print Assumptions C07_fen_of_every_reached_position_is_accepted.
+Print Assumptions C07_file_letter_spelling_denotes_the_same_position.
+Print Assumptions C07_any_mix_of_spellings_denotes_the_same_position.
+Print Assumptions C07_file_letter_spelling_of_a_reached_position.
+Print Assumptions C07_printer_spelling_is_a_mix.
